@@ -10,7 +10,8 @@
 (***************************************************************************)
 EXTENDS BodyRules, Json, TLC
 
-CONSTANTS Quick,      \* TRUE: the small universe of the quick tier
+CONSTANTS Mode,       \* "body": C07/C15 universe;  "dep": C16 universe (probe attributes, key permutations)
+          Quick,      \* TRUE: the small universe of the quick tier
           MaxItems,   \* body length
           EmitEvery   \* emit one case per EmitEvery states (1 = all)
 
@@ -19,7 +20,7 @@ vars == <<schema, doc, cur>>
 
 A(req, opt, comp, depr) == [req |-> req, opt |-> opt, comp |-> comp, dep |-> FALSE, depr |-> depr, dflt |-> Nil]
 Blk(ls, body, deps, min, max) == [labels |-> ls, body |-> body, deps |-> deps, min |-> min, max |-> max, depr |-> FALSE]
-Body(attrs, blocks, ext) == [attrs |-> attrs, blocks |-> blocks, any |-> FALSE, ext |-> ext]
+Body(attrs, blocks, ext) == [attrs |-> attrs, blocks |-> blocks, any |-> FALSE, ext |-> ext, link |-> FALSE]
 Str(v) == [k |-> "str", v |-> v]
 
 SAttrs == IF Quick THEN
@@ -52,10 +53,10 @@ DK == Blk(<<>>, NBody, <<>>, 0, 1)
 
 \* dependent bodies registered for block type r
 DepSets ==
-  LET d2 == [attrs |-> [d |-> A(TRUE, FALSE, FALSE, FALSE)], blocks |-> EmptyFn, any |-> FALSE, ext |-> NoExt]
-      d3 == [attrs |-> [d |-> A(FALSE, TRUE, FALSE, FALSE)], blocks |-> [dk |-> DK], any |-> FALSE, ext |-> NoExt]
-      d4(dflt) == [attrs |-> [sel |-> Sel(dflt), d |-> A(FALSE, TRUE, FALSE, FALSE)], blocks |-> EmptyFn, any |-> FALSE, ext |-> NoExt]
-      s2 == [attrs |-> [sel |-> Sel(Nil), s2 |-> A(FALSE, TRUE, FALSE, FALSE)], blocks |-> [dk |-> DK], any |-> FALSE, ext |-> NoExt]
+  LET d2 == [attrs |-> [d |-> A(TRUE, FALSE, FALSE, FALSE)], blocks |-> EmptyFn, any |-> FALSE, ext |-> NoExt, link |-> TRUE]
+      d3 == [attrs |-> [d |-> A(FALSE, TRUE, FALSE, FALSE)], blocks |-> [dk |-> DK], any |-> FALSE, ext |-> NoExt, link |-> TRUE]
+      d4(dflt) == [attrs |-> [sel |-> Sel(dflt), d |-> A(FALSE, TRUE, FALSE, FALSE)], blocks |-> EmptyFn, any |-> FALSE, ext |-> NoExt, link |-> TRUE]
+      s2 == [attrs |-> [sel |-> Sel(Nil), s2 |-> A(FALSE, TRUE, FALSE, FALSE)], blocks |-> [dk |-> DK], any |-> FALSE, ext |-> NoExt, link |-> TRUE]
       X == << <<0, "x">> >>
   IN IF Quick THEN
        { << [lk |-> X, ak |-> <<>>, body |-> d3] >>,
@@ -67,7 +68,27 @@ DepSets ==
          << [lk |-> X, ak |-> <<>>, body |-> d4(Nil)], [lk |-> X, ak |-> << <<"sel", Str("v")>> >>, body |-> s2] >>,
          << [lk |-> X, ak |-> <<>>, body |-> d4(Str("v"))], [lk |-> X, ak |-> << <<"sel", Str("v")>> >>, body |-> s2] >> }
 
-RSchemas == { Blk(<<[dep |-> TRUE, comp |-> TRUE]>>, Body(sa, sb, e), ds, 0, 0) : sa \in SAttrs, sb \in SBlocks, e \in Exts, ds \in DepSets }
+\* ---- "dep" mode (C16): every dependent body owns a uniquely named probe attribute p_*; key labels at index 0 and/or 1
+P == A(FALSE, TRUE, FALSE, FALSE)
+LabelCfgs == { <<[dep |-> TRUE, comp |-> TRUE], [dep |-> TRUE, comp |-> FALSE]>>,
+               <<[dep |-> TRUE, comp |-> TRUE], [dep |-> FALSE, comp |-> FALSE]>>,
+               <<[dep |-> FALSE, comp |-> FALSE], [dep |-> TRUE, comp |-> TRUE]>> }
+KeyX(lc) == SelectSeq(<< <<0, "x">>, <<1, "y">> >>, LAMBDA p : lc[p[1] + 1].dep)
+DepSetsFor(X) ==
+  LET pd(n, extra) == [attrs |-> ([a \in {n} |-> P] @@ extra), blocks |-> EmptyFn, any |-> FALSE, ext |-> NoExt, link |-> TRUE]
+  IN { <<>>,
+       << [lk |-> X, ak |-> <<>>, body |-> pd("p_d2", EmptyFn)] >>,
+       << [lk |-> X, ak |-> <<>>, body |-> [pd("p_d4", [sel |-> Sel(Nil)]) EXCEPT !.link = FALSE]],
+          [lk |-> X, ak |-> << <<"sel", Str("v")>> >>, body |-> pd("p_s2", [sel |-> Sel(Nil)])] >>,
+       << [lk |-> X, ak |-> <<>>, body |-> pd("p_d4", [sel |-> Sel(Str("v"))])],
+          [lk |-> X, ak |-> << <<"sel", Str("v")>> >>, body |-> pd("p_s2", [sel |-> Sel(Nil)])],
+          [lk |-> X, ak |-> << <<"sel", [k |-> "ref", v |-> "z.y"]>> >>, body |-> pd("p_s3", [sel |-> Sel(Nil)])] >> }
+\* a key attribute in the static body as well: keys = labels + attribute at the first level
+StaticSel == { EmptyFn, [sel |-> Sel(Nil)] }
+RSchemasDep == UNION { { Blk(lc, Body([p_st |-> P] @@ ss, EmptyFn, NoExt), ds, 0, 0) : ds \in DepSetsFor(KeyX(lc)), ss \in StaticSel } : lc \in LabelCfgs }
+
+RSchemas == IF Mode = "dep" THEN RSchemasDep ELSE
+            { Blk(<<[dep |-> TRUE, comp |-> TRUE]>>, Body(sa, sb, e), ds, 0, 0) : sa \in SAttrs, sb \in SBlocks, e \in Exts, ds \in DepSets }
 
 Root(r) == Body([top |-> A(FALSE, TRUE, FALSE, FALSE)], [r |-> r], NoExt)
 
@@ -89,11 +110,16 @@ Palette == IF Quick THEN
 
 \* HCL rejects (and drops) a second definition of an attribute: such bodies are not in the universe
 NoDupAttrs(b) == \A i, j \in AttrsOf(b) : b[i].name = b[j].name => i = j
-Bodies == { b \in UNION { [1..n -> Palette] : n \in 0..MaxItems } : NoDupAttrs(b) }
-Labels == IF Quick THEN { <<"x">>, <<"y">> } ELSE { <<"x">>, <<"y">>, <<"xx">>, <<>>, <<"x", "surplus">> }
+Ref(v) == [k |-> "ref", v |-> v]
+Probes == << AtV("p_st", Ref("ref.x")), AtV("p_d2", Ref("ref.x")), AtV("p_d4", Ref("ref.x")), AtV("p_s2", Ref("ref.x")), AtV("p_s3", Ref("ref.x")) >>
+SelVals == { <<>>, <<AtV("sel", Str("v"))>>, <<AtV("sel", Str("w"))>>, <<AtV("sel", Ref("z.y"))>> }
+BodiesDep == { sv \o Probes : sv \in SelVals } \cup { Probes \o sv : sv \in SelVals }
+Bodies == IF Mode = "dep" THEN BodiesDep ELSE { b \in UNION { [1..n -> Palette] : n \in 0..MaxItems } : NoDupAttrs(b) }
+Labels == IF Mode = "dep" THEN { <<"x", "y">>, <<"x", "z">>, <<"q", "y">>, <<"x">>, <<>> }
+          ELSE IF Quick THEN { <<"x">>, <<"y">> } ELSE { <<"x">>, <<"y">>, <<"xx">>, <<>>, <<"x", "surplus">> }
 Docs == { << B("r", ls, b) >> : ls \in Labels, b \in Bodies }
 
-Cursors ==
+Cursors == IF Mode = "dep" THEN { [kind |-> "none", path |-> <<>>, prefix |-> "", index |-> 0] } ELSE
   { [kind |-> "gap", path |-> <<1>>, prefix |-> p, index |-> 0] : p \in (IF Quick THEN {"", "d"} ELSE {"", "a", "d", "c", "dy"}) }
   \cup { [kind |-> "label", path |-> <<1>>, prefix |-> p, index |-> 0] : p \in (IF Quick THEN {""} ELSE {"", "x"}) }
 
@@ -118,5 +144,10 @@ NoDupOffer == \A c \in CandP(E.schema, doc[1].body, Pfx) : ~HasAttr(doc[1].body,
 \* sensitivity: the repaired defect must violate ImplIsSpec
 BuggyIsSpec == CandOK(E.schema, doc[1].body, Pfx, CandBuggy(E.schema, doc[1].body, Pfx))
 
-Emit == (EmitEvery = 1 \/ RandomElement(1..EmitEvery) = 1) => PrintT(ToJson([cfg |-> "MC_Body", schema |-> schema, doc |-> doc, cur |-> cur]))
+\* C16 on the model: the schema the merge produces knows exactly static + selected dependent attributes
+DepAgree == LET lk == Lookup(RS, doc[1]) IN
+            DOMAIN E.schema.attrs = DOMAIN RS.body.attrs \cup (IF lk.res \in {"Ok", "Partial"} THEN DOMAIN lk.body.attrs ELSE {})
+
+Emit == (EmitEvery = 1 \/ RandomElement(1..EmitEvery) = 1) =>
+          PrintT(ToJson([cfg |-> "MC_Body", schema |-> schema, doc |-> doc, cur |-> cur, feat |-> Mode = "dep"]))
 =============================================================================
